@@ -1,7 +1,7 @@
 PROP = dict(
     id="C14",
-    lean_modules=["TongoProofs.C14"],
-    gen=["WalletConsts"],
+    lean_modules=["TongoProofs.C14", "TongoProofs.C14Tlb"],
+    gen=["WalletConsts", "TlbTypes"],
     # the model IS the specification: bodies, envelope, digest, decoder outputs and verifier verdicts are bit-exact
     spec_ops=("m.body", "m.raw", "m.decode", "m.verify", "prim.sha256"),
     rule="every sending version (V3R1, V3R2, V4R1, V4R2, V5Beta, V5R1, HighLoadV2R2) x random Ed25519 keys x workchain / "
@@ -18,6 +18,8 @@ PROP = dict(
          "REQUESTED modes (the mode ToInternal returns is under test, not trusted). "
          "non-trivial = distinct (version, key, message count, seqno, valid-until) case",
     trusted_base=[
+        "translator X1 (TlbTypes): the wallet struct descriptors are regenerated from wallet/*.go on every run; the hand-written "
+        "layouts are proved equal to Tlb.encode on them (TongoProofs/C14Tlb.lean), so a field swap / width change breaks an obligation",
         "the highload dictionary is the shared model lean/TongoModel/Hashmap.lean (C05: entries ordered by key bits, canonical "
         "shortest edge labels); its round trip is used through the C05 theorems encode_sorted_tree / decode_any_valid",
         "translator WalletConsts (harness/cmd/extract, go/ast): DefaultSubWallet, MainnetGlobalID, the v5 opcodes, the action tag, the Version enumeration and maxMessageNumber() literals are re-read from wallet/*.go on every run and stated as decide-d obligations against the model (lean/TongoGen/WalletConsts.lean)",
